@@ -102,10 +102,11 @@ bool safe_follower(const std::string& s, size_t i) {
   return c == ' ' || c == '\t' || c == '\n' || c == '\r' || c == ',' || c == ']' || c == '}';
 }
 
-// coarse content tag for "rejected" keys, so that different causes do not share a key
+// coarse content tag for "rejected" keys, so that the two known causes do not share a key
 const char* feature(const jref::Val& v) {
-  bool e = v.has_empty_container(), x = v.has_exp_number();
-  return e && x ? "empty-container+exponent-number" : e ? "empty-container" : x ? "exponent-number" : "other";
+  if (v.has_empty_container()) return "empty-container";
+  if (v.has_exp_number()) return "exponent-number";
+  return "other";
 }
 
 std::string show_obs(const Obs& o) {
